@@ -32,7 +32,7 @@ def gen_perm(rng, tier):
             for m in ["GET", "POST", "PUT", "DELETE", "EMPTY", "get"]:
                 for rs in ROLESETS:
                     ops.append("perm roles=%s %s %s" % (rs, m, p))
-        cases.append(Case("perm-%d" % i, ops, False, "exhaustive"))
+        cases.append(Case("perm-%d" % i, ops, True, "exhaustive"))
     return cases
 
 
@@ -43,16 +43,16 @@ def gen_console(rng, tier):
     big = tier == "thorough"
     for i, (p, m, h) in enumerate(routes):
         ops = []
-        sess = SESSIONS if big else ["none", "zzz-garbage", "sess-2", rng.choice(["sess-0", "sess-1", "sess-12", "sess-x", "sess-none", "empty"])]
+        sess = SESSIONS if big else ["none", "zzz-garbage", "sess-2", "sess-none", rng.choice(["sess-0", "sess-1", "sess-12", "sess-x", "empty"])]
         for s in sess:
             # never call a mutating handler with a session that is allowed to run it on the shared node: the
             # middleware's verdict is what is compared, and `served` is observable from a refused validation too
-            ops.append("chttp %s %s session=%s" % (m, p, s))
+            ops.append("chttp %s %s session=%s h=%s" % (m, p, s, h))
         for sp in [p + "/", p.upper(), p.replace("/console/", "/console//", 1), p + ".js", p + "/x.css",
                    p[:-1] + "%%%02X" % ord(p[-1])]:
             ops.append("chttp %s %s session=none" % (m, sp))
             if big:
-                ops.append("chttp %s %s session=sess-2" % (m, sp))
+                ops.append("chttp %s %s session=sess-2 h=%s" % (m, sp, h))
         cases.append(Case("console-%d-%s" % (i, p.rsplit("/", 2)[-2] + "_" + p.rsplit("/", 1)[-1]), ops, True, "sweep"))
     return cases
 
@@ -63,7 +63,7 @@ class C17(Prop):
     level = "proof"
     design_ref = "DESIGN.md §7 C17"
     models = [
-        ModelRun("perm", gen_perm, lambda c: len(c.ops) >= 2, rule=(
+        ModelRun("perm", gen_perm, lambda c: len(c.ops) >= 2, spec_needs_impl=True, rule=(
             "exhaustive product: every console route path + every granted path + near-miss spellings x methods "
             "{GET,POST,PUT,DELETE,'',get} x 12 role sets (single, multiple, unknown, empty string) through the real "
             "UserRole::match_url_by_roles vs the model over the generated tables")),
